@@ -38,6 +38,7 @@ class Devices:
         self.buttons = []    # Button objects in declaration order
         self.servos = []
         self.servo_pins = set()
+        self.lcds = []
 
     def device_pins(self):
         s = set(self.led_pins) | set(self.rgb_pins) | set(self.input_pins) | set(self.servo_pins)
@@ -243,6 +244,69 @@ def build_world(patched=True):
         if self._serial is None:
             self._serial = _Port()
     SM.__init__ = SM_init
+
+    # ---- LCD: snapshot of the character buffer after every mutating call; backlight pin level
+    D = hw.load("Reduino.Displays")
+    L = D.LCD
+    dev.lcds = []
+    lcd_init = L.__init__
+
+    def _snap(self):
+        eng().emit("lcd_snapshot", self._verif_idx, tuple(self.buffer), self.cols, self.rows)
+
+    def _backlight_level(self):
+        if not self.is_i2c and self.backlight_pin is not None:
+            lvl = self.brightness_level if self.backlight_on else 0
+            eng().emit("level", pin_number(self.backlight_pin), lvl)
+        elif self.is_i2c:
+            eng().emit("lcd_backlight", self._verif_idx, 1 if self.backlight_on else 0)
+
+    def L_init(self, *a, **k):
+        self._verif_idx = len(dev.lcds)
+        dev.lcds.append(self)
+        lcd_init(self, *a, **k)
+        if not self.is_i2c and self.backlight_pin is not None:
+            dev.led_pins.add(pin_number(self.backlight_pin))
+        eng().emit("lcd_init", self._verif_idx, self.cols, self.rows)
+        _backlight_level(self)
+        _snap(self)
+    L.__init__ = L_init
+
+    def wrap_text(name):
+        orig = getattr(L, name)
+
+        def w(self, *a, **k):
+            depth = getattr(self, "_verif_depth", 0)
+            self._verif_depth = depth + 1
+            try:
+                r = orig(self, *a, **k)
+            finally:
+                self._verif_depth = depth
+            if depth == 0:
+                _snap(self)
+            return r
+        setattr(L, name, w)
+    for _n in ("write", "line", "message", "clear", "progress", "animate", "tick"):
+        wrap_text(_n)
+
+    def wrap_light(name):
+        orig = getattr(L, name)
+
+        def w(self, *a, **k):
+            r = orig(self, *a, **k)
+            if name == "display":
+                eng().emit("lcd_display", self._verif_idx, 1 if self.display_on else 0)
+            _backlight_level(self)
+            return r
+        setattr(L, name, w)
+    for _n in ("display", "backlight", "brightness"):
+        wrap_light(_n)
+    l_glyph = L.glyph
+
+    def L_glyph(self, slot, bitmap):
+        l_glyph(self, slot, bitmap)
+        eng().emit("lcd_glyph", self._verif_idx, int(slot), tuple(self.glyphs[int(slot)]))
+    L.glyph = L_glyph
     return hw
 
 
